@@ -65,7 +65,7 @@ var (
 	vKeys     = []string{"k1", "k2"}
 	vTexts    = []string{"hi", "hello world", ":colon first", ""}
 	vAddrs    = []string{"a1", "a2", "a3"}
-	vPseudo   = []string{"NickServ", "ChanServ", "Bot", "bot", "B[ot]", "OperServ"}
+	vPseudo   = []string{"NickServ", "ChanServ", "Bot", "bot", "B[ot]", "OperServ", "b{ot}"}
 )
 
 // variant returns another spelling of the same name under IRC case mapping.
@@ -387,7 +387,7 @@ func (g *vGen) next(step int, st map[string]interface{}) *vEntry {
 		case 11:
 			e.Data = fmt.Sprintf(":%s MODE %s %s %s", pfx, anyChan(), pick(r, []string{"+o", "-o", "+t", "-t", "+i", "-i", "+r", "+s", "+z"}), clientNick())
 		case 12:
-			e.Data = fmt.Sprintf(":%s TOPIC %s %s %s :%s", pfx, anyChan(), pfx, pick(r, []string{"5", "77", "x"}), pick(r, vTexts))
+			e.Data = fmt.Sprintf(":%s TOPIC %s %s %s :%s", pfx, anyChan(), pfx, pick(r, []string{"0", "5", "77", "x"}), pick(r, vTexts))
 		case 13:
 			e.Data = fmt.Sprintf(":%s INVITE %s %s", pfx, clientNick(), anyChan())
 		case 14, 15:
@@ -433,7 +433,7 @@ func (g *vGen) next(step int, st map[string]interface{}) *vEntry {
 			if r.Intn(3) == 0 {
 				e.Data = fmt.Sprintf(":%s SVSHOLD %s", pfx, pick(r, vNicks))
 			} else {
-				e.Data = fmt.Sprintf(":%s SVSHOLD %s %s :%s", pfx, pick(r, vNicks), pick(r, []string{"5", "100", "x"}), "held")
+				e.Data = fmt.Sprintf(":%s SVSHOLD %s %s :%s", pfx, pick(r, vNicks), pick(r, []string{"0", "5", "100", "x"}), "held")
 			}
 		}
 		// the models's SVSNICK scope: target is a client session
@@ -518,7 +518,8 @@ func (g *vGen) next(step int, st map[string]interface{}) *vEntry {
 		case 6:
 			e.Data = fmt.Sprintf("MODE %s -k %s", c, pick(r, []string{"k1", ""}))
 		case 7, 8, 9:
-			masks := []string{"*!*@a1", "*!*@a2", "bob!*@*", "*!u1@*", "*alice*", "*!*@robust/0x2", "*!*@robust/0x3"}
+			masks := []string{"*!*@a1", "*!*@a2", "bob!*@*", "*!u1@*", "*alice*", "*!*@robust/0x2", "*!*@robust/0x3",
+				"BOB!*@*", "*!*@A1", "*!*@h[x]", "*!*@H{X}", "b[ob]!*@*", "B{OB}!*@*"} // incl. masks equal under IRC case mapping
 			e.Data = fmt.Sprintf("MODE %s %s %s", c, pick(r, []string{"+b", "-b"}), pick(r, masks))
 		case 10:
 			e.Data = fmt.Sprintf("MODE %s +b", c)
